@@ -108,12 +108,12 @@ PLANS["C05"].own = _own()          # C05 needs less than exact layout: a refuted
 PLANS["C07"].own = _own()          # exact refinement of the renderer supports C07; a refuted refinement obligation is decided by the C07 oracle
 plan(Plan(
     id="C02", title="Plain-text children are inert data",
-    contracts=RENDER_FNS + HTML_FNS[:4],
+    contracts=RENDER_FNS + HTML_FNS[:4] + [CORE + "_tagchilds_to_tagnodes"],
     lean={"HV.C02": ["TEXT_keys", "TEXT_refs", "C02_esc_spec", "C02_decodes", "C02_no_lt_gt", "C02_amp_only_refs", "C02_esc_append",
                      "C02_text_inert_list", "C02_text_inert_tag"]},
     gconds=TABLE_G + ["G:htmltools.html_escape:reexport"], oracle="c02", design_ref="§7 C02",
-    own=_own("html_escape", "_normalize_text"),
-    assumptions=["`every way of adding a child` stores strings whole and numbers as str(n): that is C14's contract (checked there); here the stored-children state is quantified over directly"],
+    own=_own("html_escape", "_normalize_text", "_tagchilds_to_tagnodes"),
+    assumptions=["`every way of adding a child` stores strings whole and numbers as str(n): the conversion function _tagchilds_to_tagnodes is verified here too; the mutators that call it are C14's contracts"],
 ))
 plan(Plan(
     id="C03", title="Attribute values are inert, single-line, and decode to the original",
@@ -125,12 +125,14 @@ plan(Plan(
 ))
 plan(Plan(
     id="C04", title="Trusted markup is emitted verbatim and escaping happens exactly once",
-    contracts=RENDER_FNS + HTML_FNS,
+    contracts=RENDER_FNS + HTML_FNS + [CORE + "wrap_displayhook_handler.handler_wrapper", CORE + "HTMLTextDocument.render", CORE + "_tagchilds_to_tagnodes"],
     lean={"HV.C02": ["C04_raw_verbatim_list", "C04_raw_verbatim_tag", "C04_repr_verbatim_tag", "C04_noesc_text_verbatim"],
           "HV.C03": ["C04_html_attr_verbatim", "C04_add_rend", "C04_add_raw", "C04_concat_algebra", "C04_all_plain"]},
     gconds=TABLE_G + ["G:HTML:no__iadd__"], oracle="c04", design_ref="§7 C04",
-    own=_own("HTML.", "_normalize_text", "html_escape"),
-    assumptions=["`+` with operands other than str/HTML goes through str(other), an external call (A5); other UserString methods (%, format, join) are not in the statement"],
+    own=_own("HTML.", "_normalize_text", "html_escape", "handler_wrapper", "HTMLTextDocument.render", "_tagchilds_to_tagnodes"),
+    assumptions=["`every rendering path`: besides get_html_string / render, the display hook of `with tag:` (its wrapper keeps _repr_html_ markup as HTML) and "
+                 "HTMLTextDocument.render (placeholder replaced by str.replace, no template processing) are under contract here; HTMLDocument.render is C11's",
+                 "`+` with operands other than str/HTML goes through str(other), an external call (A5); other UserString methods (%, format, join) are not in the statement"],
 ))
 
 
@@ -270,7 +272,7 @@ plan(Plan(
     lean={"HV.C11": ["first_is_head", "replace_first_same", "nodes_depTagChildren", "hoist_el", "C11_root_is_html", "C11_head_count", "C11_one_head_generated",
                      "C11_head_content", "C11_rest_untouched", "C11_each_dep_once", "C11_listing", "C11_no_listing_without_deps", "C11_returned_deps", "C11_doctype"]},
     oracle="c11", design_ref="§7 C11",
-    own=_own("HTMLDocument."),
+    own=_own("HTMLDocument.", "get_dependencies", "_resolve_dependencies"),
     claim="_hoist_head_content, _gen_html_tag_tree and render are verified from the real AST against the document spec (docTree / hoist / docRender); the structure of that "
           "spec (one html root, one head starting with meta charset, user head content kept in order, listing + each dependency's markup once in resolved order, "
           "siblings of the head untouched, returned list = resolved list) is proved in Lean",
@@ -283,13 +285,15 @@ plan(Plan(
 
 
 def _c08_own(name):
-    return name.startswith("F:") or _own("Tag.__copy__", "_render_tag_or_taglist", ".tagify", "delegates")(name)
+    return name.startswith("F:") or _own("Tag.__copy__", "_render_tag_or_taglist", ".tagify", "delegates", "__eq__", "_normalize_attr_name")(name)
 
 
 plan(Plan(
     id="C08", title="Rendering and tagify are pure and consistent; tagify returns an independent copy",
-    contracts=TAGIFY_FNS + DEPS_FNS + RENDER_FNS + DOC_FNS + [CORE + "Tag.__copy__", CORE + "_render_tag_or_taglist"],
-    lean={"HV.C09": ["C08_tagify_id_T", "C08_tagify_id_L", "C08_tagify_fixed_point"]},
+    contracts=TAGIFY_FNS + DEPS_FNS + RENDER_FNS + DOC_FNS + [CORE + "Tag.__copy__", CORE + "_render_tag_or_taglist", CORE + "_equals_impl", CORE + "TagAttrDict._normalize_attr_name"],
+    lean={"HV.C09": ["C08_tagify_id_T", "C08_tagify_id_L", "C08_tagify_fixed_point"],
+          "HV.C08": ["C08_attrsEq_refl", "C08_eq_refl_N", "C08_eq_refl_L", "C08_eq_tag", "C08_eq_kinds", "C08_attrsEq_sound", "C08_nodesEq_cons", "C08_nodesEq_len", "C08_eq_text"],
+          "HV.AttrFacts": ["C15_normName_idem"]},
     oracle="c08", design_ref="§7 C08", own=_c08_own,
     claim="frame obligations: on every path of tagify / render / get_html_string / get_dependencies / Tag.__copy__ / str() / HTMLDocument._gen_html_tag_tree, "
           "_hoist_head_content and render every store write targets an object allocated in that activation; tagify's result elements that are tags or metadata nodes are "
@@ -298,9 +302,10 @@ plan(Plan(
     assumptions=["value semantics with freshness flags (A1): aliasing between distinct parameters is not modelled",
                  "HTMLDependency.as_html_tags / as_dict / source_path_map / serialize_to_script_json and save_html (file system, deepcopy, os.path) are outside the verified subset: "
                  "their purity is covered by the bounded oracle's deep snapshots only",
-                 "== (_equals_impl walks __dict__ generically) is covered by the bounded oracle only: rebuilt-equal trees, different kinds, ten kinds of single differences"],
-    bounded=["B:C08:== semantics (_equals_impl): bounded oracle, not an R-obligation",
-             "B:C08:purity of the HTMLDependency methods and save_html: bounded oracle deep snapshot with object identities"],
+                 "==: Tag / TagList / HTMLDependency.__eq__ are executed (through _equals_impl's body) on record views and proved equal to nodeEq / nodesEq / field-wise equality; "
+                 "dict == dict is modelled as attrsEq (same keys, equal values, order irrelevant) and list == list as pairwise == (A3); a copied attribute map equals the original "
+                 "because name normalisation is idempotent (C15_normName_idem over the verified _normalize_attr_name)"],
+    bounded=["B:C08:purity of the HTMLDependency methods and save_html: bounded oracle deep snapshot with object identities"],
 ))
 
 
